@@ -570,28 +570,29 @@ class _SrcNode(ast.AST):
 
 
 def _replace(stmt, old, new):
-    class T(ast.NodeTransformer):
-        def visit(self, node):
-            if node is old:
-                return new
-            return self.generic_visit(node)
+    """Copy of `stmt` with the sub-node `old` replaced by `new`; only nodes on the path to `old` are rebuilt."""
+    def contains(n):
+        return any(x is old for x in ast.walk(n))
 
-    st2 = copy.deepcopy(stmt)
-    # deepcopy loses identity: locate the copy of `old` by position in a parallel walk
-    for a, b in zip(ast.walk(stmt), ast.walk(st2)):
-        if a is old:
-            target = b
-            break
-    else:
+    def sub(n):
+        if n is old:
+            return new
+        if not isinstance(n, ast.AST) or not contains(n):
+            return n
+        kw = {}
+        for field, val in ast.iter_fields(n):
+            if isinstance(val, list):
+                kw[field] = [sub(v) if isinstance(v, ast.AST) else v for v in val]
+            elif isinstance(val, ast.AST):
+                kw[field] = sub(val)
+            else:
+                kw[field] = val
+        out = type(n)(**kw)
+        return ast.copy_location(out, n)
+
+    if not contains(stmt):
         raise AnalysisError("layout: internal: IfExp not found for forking")
-
-    class T2(ast.NodeTransformer):
-        def visit(self, node):
-            if node is target:
-                return copy.deepcopy(new)
-            return self.generic_visit(node)
-
-    return T2().visit(st2)
+    return sub(stmt)
 
 
 def _pycmp(a, op, b, node):
